@@ -5,6 +5,8 @@ import (
 	"fmt"
 	"runtime"
 	"strings"
+	"sync"
+	"sync/atomic"
 	"time"
 
 	proto "github.com/akrennmair/updog/proto/updog/v1"
@@ -395,6 +397,75 @@ func runParseCase(o *Oracle, c *ParseCase, rep *Report, family string) {
 	}
 }
 
+// parseOwnership: a parsed tree belongs to the caller: it edits the tree it got, and parsing the same text again still
+// yields the text's own tree (also for texts parsed many times, and by several goroutines at once)
+func parseOwnership(rep *Report, prop string) {
+	texts := []string{`country = $1 & ^ ( device = "phone" | device = "tab""let" ) ; browser`, `a = "1" | b = $2 ; g, h`, `^ x = "y"`, `k = "v"`}
+	want := make([]string, len(texts))
+	for i, t := range texts {
+		want[i], _ = safeParse(t)
+	}
+	for i, t := range texts {
+		if pq, err := verifhook.ParseQuery(t); err == nil {
+			pq.GroupBy = append(pq.GroupBy, "edited_by_caller")
+			pq.Id = 77
+			_ = queryparser_Walk(pq)
+		}
+		for k := 0; k < 3; k++ {
+			got, _ := safeParse(t)
+			rep.Count("reparse-after-caller-edit")
+			if got != want[i] {
+				rep.Violate(Violation{Kind: "history", Signature: prop + ":reparse-differs", What: fmt.Sprintf("the text %q parsed again after the caller edited the tree it got from an earlier parse", t), Expected: trunc(want[i], 300), Actual: trunc(got, 300), Case: map[string]any{"text": t, "scenario": "caller edits parsed tree"}})
+				break
+			}
+		}
+	}
+	var wg sync.WaitGroup
+	var bad atomic.Value
+	for g := 0; g < 4; g++ {
+		wg.Add(1)
+		go func(g int) {
+			defer wg.Done()
+			for k := 0; k < 20000 && bad.Load() == nil; k++ {
+				i := (g + k%2) % len(texts)
+				if got, _ := safeParse(texts[i]); got != want[i] {
+					bad.Store(fmt.Sprintf("%q parsed concurrently gave %s", texts[i], trunc(got, 200)))
+				}
+			}
+		}(g)
+	}
+	wg.Wait()
+	rep.Count("concurrent-parse-rounds")
+	if b := bad.Load(); b != nil {
+		rep.Violate(Violation{Kind: "schedule", Signature: prop + ":reparse-differs", What: "4 goroutines parsing a handful of texts over and over: " + b.(string), Expected: "each text's own tree", Actual: b.(string), Case: map[string]any{"scenario": "concurrent parse"}})
+	}
+}
+
+// queryparser_Walk edits every placeholder leaf of a parsed tree in place (what a caller binding arguments by hand does)
+func queryparser_Walk(pq *proto.Query) error {
+	var walk func(e *proto.Query_Expression)
+	walk = func(e *proto.Query_Expression) {
+		switch v := e.GetValue().(type) {
+		case *proto.Query_Expression_Eq:
+			if v.Eq != nil && v.Eq.Placeholder > 0 {
+				v.Eq.Value, v.Eq.Placeholder = "bound_by_caller", 0
+			}
+		case *proto.Query_Expression_Not_:
+			walk(v.Not.GetExpr())
+		case *proto.Query_Expression_And_:
+			for _, k := range v.And.GetExprs() {
+				walk(k)
+			}
+		case *proto.Query_Expression_Or_:
+			for _, k := range v.Or.GetExprs() {
+				walk(k)
+			}
+		}
+	}
+	walk(pq.GetExpr())
+	return nil
+}
+
 func runC09(rep *Report, r *Rng, tier string) {
 	rep.Rule = "strings: (1) sentences rendered from random trees by an independent renderer (random legal spacing, redundant parentheses, leading-zero placeholders), (2) token-level mutations of them (insert/delete/duplicate/append/truncate with operator, quote, placeholder and non-ASCII tokens), (3) raw random bytes incl. invalid UTF-8/control characters, (4) a fixed corpus; each parsed by ParseQuery and by the Lean lexer+parser model: accept/reject and the tree compared; lexer goroutines counted after each batch; non-trivial = accepted string longer than 8 bytes; distinct by text"
 	o := StartOracle()
@@ -438,7 +509,7 @@ func runC09(rep *Report, r *Rng, tier string) {
 		}
 	}
 	{
-		depths := []int{1000, 10001, 20000}
+		depths := []int{1000, 10001, 20000, 300000}
 		if tier == "thorough" {
 			depths = append(depths, 100000)
 		}
@@ -480,6 +551,7 @@ func runC09(rep *Report, r *Rng, tier string) {
 			}
 		}
 	}
+	parseOwnership(rep, "C09")
 	after := settledLexerGoroutines()
 	rep.Note("lexer goroutines before=%d after=%d", before, after)
 	if after > before {
@@ -552,6 +624,7 @@ func runFmtCase(o *Oracle, c *FmtCase, rep *Report) {
 }
 
 func runC10(rep *Report, r *Rng, tier string) {
+	defer parseOwnership(rep, "C10")
 	rep.Rule = "query trees: exhaustive up to depth D / arity 3 over a 4-leaf alphabet, plus random deep/wide trees with hostile values (quotes, newlines, operators, invalid UTF-8, empty) and placeholders, group-by lists 0..5; checked on the implementation: formatted text accepted, norm(parse(format q)) = norm q with same group-by, second-generation text stable; and formatter/parser compared with the Lean model; non-trivial = tree with at least one operator; distinct by tree"
 	o := StartOracle()
 	defer o.Close()
